@@ -1,6 +1,7 @@
 import UberjobModel.Lemmas.CacheSpec
 import UberjobModel.Lemmas.CacheHistory
 import UberjobModel.Lemmas.ExecFinal
+import UberjobModel.Lemmas.StaleExec
 import UberjobModel.Props.C04
 /-!
 # C05 — exactly the out-of-date stored values are rebuilt; a repeated run does nothing
@@ -42,6 +43,47 @@ theorem C05_idempotent {P : LPlan} (hP : P.WF) {w0 : World} (hg : Good P w0) {F 
     (hOrder : ∀ q tq k tk, (q, tq) ∈ linOf ops → (k, tk) ∈ linOf ops → q ≠ k → Reach P q k → tq < tk) :
     ∀ j, isStale P (applyOps P w0 ops) F j = false :=
   (complete_run_correct hP hg hnd hok hnodup hOnlyStale hAllStale hFresh hOrder).1
+
+/-! ### The stale check as it runs: concurrently, on the engine
+
+`_get_stale_nodes` does not fold over the nodes in order: it hands `process` to `run_function_on_graph` (scheduler
+"cheap", `stale_check_max_workers` threads).  `StaleExec.execOrder` applies `process(k)` — read the predecessors' slots,
+write one's own — in the order in which a schedule of the engine model completes the nodes. -/
+
+open Uberjob.StaleExec in
+/-- **Every schedule of the engine computes the same stale check**: in every reachable state, every completed node holds
+    exactly the sequential result `sres` (stale flag and carried modified time); a store has been asked for its modified
+    time iff its node completed, is registered and has no out-of-date predecessor; and no store is asked twice. -/
+theorem C05_stale_check_any_schedule {L : LPlan} (hL : L.WF) (w : World) (F : Option Int)
+    {cfg : Engine.Cfg} {s : Engine.St} (h : Engine.Reach (stGraph L) cfg s) :
+    let x := StaleExec.execOrder L w F s.okd
+    (∀ k, k ∈ s.okd → x.look k = some (sres L w F k)) ∧
+    (∀ k, k ∈ x.queried ↔ k ∈ s.okd ∧ (L.reg k).isSome ∧ (L.preds k).any (fun p => isStale L w F p) = false) ∧
+    x.queried.Nodup := by
+  intro x
+  have I := sinv_reach hL w F h
+  exact ⟨I.done, I.asked, I.once⟩
+
+open Uberjob.StaleExec in
+/-- A stale check that returns normally (no `get_modified_time` raised) has processed every node, under any schedule: the
+    set it returns is `{k | isStale L w F k}`. -/
+theorem C05_stale_check_result {L : LPlan} (hL : L.WF) (w : World) (F : Option Int)
+    {cfg : Engine.Cfg} (hw : 1 ≤ cfg.workers) {s : Engine.St} (h : Engine.Reach (stGraph L) cfg s)
+    (hc : s.coord = .returned false) (hf : s.failed = []) :
+    ∀ k, k < L.n → ((StaleExec.execOrder L w F s.okd).look k).map (·.stale) = some (isStale L w F k) := by
+  intro k hk
+  have hrank : (stGraph L).Ranked id := by
+    intro x y hy
+    have := ((stGraph_wf L).adj x y).mp hy
+    simp only [stGraph, Engine.Graph.ofEdges, Engine.mem_dedup, List.mem_map, List.mem_filter, List.mem_flatMap,
+      List.mem_range, beq_iff_eq] at this
+    obtain ⟨e, ⟨⟨⟨j, _, p, hp, rfl⟩, _⟩, h2⟩, h1⟩ := this
+    simp only at h1 h2
+    subst h1; subst h2
+    exact hL.predsLt _ _ hp
+  have hall := (Engine.C04_exact (stGraph_wf L) hw h hrank hc hf).2
+  have := (sinv_reach hL w F h).done k ((hall k).mpr (mem_stGraph_nodes.mpr hk))
+  rw [this]; rfl
 
 /-! ### End to end (stale check + physical plan + engine + stores; see Props/C03.lean for the setting) -/
 
@@ -124,5 +166,16 @@ def wA : World := applyOps chainP ⟨fun _ => none⟩ [.update 0 (.src 0 1) 5]
 example : (List.range 3).filter (isStale chainP wA none) = [2] := by decide
 example : (List.range 3).filter (isStale chainP (applyOps chainP wA [.write 2 6]) none) = [] := by decide
 example : (List.range 3).filter (isStale chainP (applyOps chainP wA [.write 2 6]) (some 7)) = [2] := by decide
+/-- the same stale check, as the engine runs it (one worker, to the normal return): node 2 ends up stale, only the stores
+    of nodes 0 and 2 are asked for their modified time -/
+def chainRun : List Engine.Label :=
+  [.spawn, .get 0 (.node 0), .check 0, .finOk 0, .release 0 1, .taskDone 0,
+   .get 0 (.node 1), .check 0, .finOk 0, .release 0 2, .taskDone 0,
+   .get 0 (.node 2), .check 0, .finOk 0, .taskDone 0,
+   .joinReturn, .setStop, .putDone, .get 0 .done, .check 0, .taskDone 0, .joined]
+example : (Engine.run? (StaleExec.stGraph chainP) ⟨1, some 0⟩ (Engine.init (StaleExec.stGraph chainP)) chainRun).map
+    (fun s => (s.coord, s.failed, s.okd)) = some (.returned false, [], [0, 1, 2]) := by decide
+example : ((StaleExec.execOrder chainP wA none [0, 1, 2]).look 2).map (·.stale) = some true ∧
+    (StaleExec.execOrder chainP wA none [0, 1, 2]).queried = [0, 2] := by decide
 
 end Uberjob.Cache
